@@ -10,7 +10,7 @@ UNI_WS = ["\u3000\u5168\u89d2\u306e\u8aac\u660e", "\u00a0note", "\u2003\u2003wid
 
 
 def schema_text(i, faults, uni=False):
-    base = ["type Query { a: Int, b(x: Int, s: String): String, e%d: Extra%d }" % (0, 0), "type Extra0 { x: Int }"] if i == 0 else \
+    base = ["type Query { a: Int, b(x: Int, s: String): String, e%d: Extra%d, c(since: Date): Int }" % (0, 0), "type Extra0 { x: Int }", "scalar Date"] if i == 0 else \
            ["type Extra%d { x: Int }" % i, "extend type Query { e%d: Extra%d }" % (i, i)]
     lines = ["# schema file %d" % i] + base
     if "check" in faults:
@@ -33,7 +33,8 @@ def op_text(j, faults, lib_from=None, libv_from=None, uni=False):
         lines.append("#import LibV%d from \"./o%d.graphql\"" % (libv_from, libv_from))
     if "import" in faults:
         lines.append("#import Gone from \"./missing%d.graphql\"" % j)
-    lines += ["query Q%d {" % j, "  a", "  b(x: %d)" % j, "}"]
+    # every second file passes a LITERAL for a custom scalar (the checker cannot judge it and says so in its log: not on stdout)
+    lines += ["query Q%d {" % j, "  a", "  b(x: %d)" % j] + (['  c(since: "2024-01-0%d")' % (j % 9 + 1)] if j % 2 == 0 else []) + ["}"]
     if lib_from is not None:
         lines.append("query UseLib%d { ...Lib%d }" % (lib_from, lib_from))
     if libv_from is not None:
@@ -57,6 +58,9 @@ extensions:
   nitrogql:
     generate:
       schemaOutput: ./gen/schema.d.ts
+      type:
+        scalarTypes:
+          Date: string
 """
 
 
